@@ -108,6 +108,18 @@ Fill(mask, args) ==
                           THEN args[Cardinality({q \in 1..j : IsHole(mask[q])})]
                           ELSE mask[j].val]
 
+(* VARIABLE NAMES ARE EXPANDED QNAMES (XPath 3.1 2.1.1, 3.1.2): with the prefixes p and q bound to urn:p and r
+   bound to urn:r, $p:n, $q:n and $Q{urn:p}n denote ONE variable, $r:n and $n are two other variables.
+   Canon = the expanded name of the (finitely many) QName spellings of this model; the definitional
+   semantics binds and looks up under Canon.  StoreI / LookupI = what the code does: let / for / parameters
+   bind under the LEXICAL name (an EQName under its expanded name); a reference looks the lexical name up
+   first and the expanded name only as a fallback. *)
+Canon(x) == CASE x \in {"p:n", "q:n", "Q{urn:p}n"} -> "{urn:p}n"
+              [] x = "r:n" -> "{urn:r}n"
+              [] OTHER -> x
+CanonSeq(xs) == [j \in 1..Len(xs) |-> Canon(xs[j])]
+StoreI(x) == IF x = "Q{urn:p}n" THEN "{urn:p}n" ELSE x
+StoreSeqI(xs) == [j \in 1..Len(xs) |-> StoreI(xs[j])]
 Bind(env, params, args) ==
   [v \in DOMAIN env \cup SeqRange(params) |->
      IF v \in SeqRange(params) THEN args[CHOOSE j \in 1..Len(params) : params[j] = v] ELSE env[v]]
@@ -233,6 +245,7 @@ ApplyNamed(name, args) ==
     [] name = "number" -> LET x == StrOf(args[1]) IN            \* the strings of this model
                           IF x = "9" THEN <<D(9)>> ELSE IF x = "10" THEN <<D(10)>> ELSE <<[nan |-> TRUE]>>
     [] name = "count" -> <<I(Len(args[1]))>>
+    [] name = "head" -> IF args[1] = <<>> THEN <<>> ELSE <<args[1][1]>>
     [] name = "array:flatten" -> Flatten(args[1][1].arr)
     [] name = "reverse" -> RevSeq(args[1])
     [] name = "for-each" -> ForEach(args[1], args[2][1])
@@ -245,7 +258,7 @@ ApplyNamed(name, args) ==
 
 Apply(f, args) ==
   IF IsMapOrArray(f) THEN LookupMA(f, args[1]) ELSE
-  CASE f.fn = "inline" -> Eval(f.body, Bind(f.env, f.params, ConvertAll(args, f.types)))
+  CASE f.fn = "inline" -> Eval(f.body, Bind(f.env, CanonSeq(f.params), ConvertAll(args, f.types)))
     [] f.fn = "named" -> IF Has(f, "focus") THEN ApplyFocus(f.name, f.focus) ELSE ApplyNamed(f.name, args)
     [] f.fn = "partial" -> Apply(f.base, Fill(f.mask, args))
 
@@ -257,7 +270,7 @@ Eval(e, env) ==
   CASE e.k = "lit" -> <<I(e.v)>>
     [] e.k = "lits" -> [j \in 1..Len(e.ns) |-> I(e.ns[j])]
     [] e.k = "empty" -> <<>>
-    [] e.k = "var" -> env[e.n]
+    [] e.k = "var" -> env[Canon(e.n)]
     [] e.k = "bin" -> Arith(e.op, Eval(e.a, env), Eval(e.b, env))
     [] e.k = "seq" -> Eval(e.a, env) \o Eval(e.b, env)
     [] e.k = "if" -> IF EBV(Eval(e.c, env)) THEN Eval(e.a, env) ELSE Eval(e.b, env)
@@ -271,7 +284,7 @@ Eval(e, env) ==
     [] e.k = "nanlit" -> <<[nan |-> TRUE]>>
     [] e.k = "nzlit" -> <<D(0)>>
     [] e.k = "some" -> LET s == Eval(e.s, env) IN
-                       <<B(\E j \in 1..Len(s) : EBV(Eval(e.c, Ext(env, e.v, <<s[j]>>))))>>
+                       <<B(\E j \in 1..Len(s) : EBV(Eval(e.c, Ext(env, Canon(e.v), <<s[j]>>))))>>
     [] e.k = "map" ->
          LET s == Eval(e.s, env) IN
          Flatten([j \in 1..Len(s) |-> Eval(e.r, WithFocus(env, s[j], j, Len(s)))])
@@ -289,8 +302,8 @@ Eval(e, env) ==
          IF HasHole(e.args) THEN <<[fn |-> "partial", base |-> f, mask |-> MaskOf(e.args, env)]>>
          ELSE ApplyNamed(e.name, EvalArgs(e.args, env))
     [] e.k = "for" ->
-         LET s == Eval(e.s, env) IN Flatten([j \in 1..Len(s) |-> Eval(e.r, Ext(env, e.v, <<s[j]>>))])
-    [] e.k = "let" -> Eval(e.r, Ext(env, e.v, Eval(e.e, env)))
+         LET s == Eval(e.s, env) IN Flatten([j \in 1..Len(s) |-> Eval(e.r, Ext(env, Canon(e.v), <<s[j]>>))])
+    [] e.k = "let" -> Eval(e.r, Ext(env, Canon(e.v), Eval(e.e, env)))
     [] e.k = "index" -> LET s == Eval(e.e, env) IN IF e.j \in 1..Len(s) THEN <<s[e.j]>> ELSE <<>>
     [] e.k = "arr" -> <<[arr |-> EvalArgs(e.es, env)]>>
 
@@ -393,7 +406,7 @@ CallI(f, args, m) ==
   ELSE CASE f.fn = "tok" ->
          \* context = copy(context); context.variables = context.variables.copy();
          \* D.update(item.variables); D[param] = arg; the caller's dict is untouched
-         LET d2 == Bind(Update(m.d, f.vars), f.params, ConvertAll(args, f.types))
+         LET d2 == Bind(Update(m.d, f.vars), StoreSeqI(f.params), ConvertAll(args, f.types))
              r == EvalI(f.body, [m EXCEPT !.d = d2]) IN
          R(r.v, [r.m EXCEPT !.d = m.d])
     [] f.fn = "ptok" ->
@@ -409,7 +422,7 @@ CallI(f, args, m) ==
    the outer dict is untouched *)
 ForI(e, items, acc, m) ==
   IF items = <<>> THEN R(acc, m)
-  ELSE LET r == EvalI(e.r, [m EXCEPT !.d = Ext(m.d, e.v, <<Head(items)>>)]) IN
+  ELSE LET r == EvalI(e.r, [m EXCEPT !.d = Ext(m.d, StoreI(e.v), <<Head(items)>>)]) IN
        ForI(e, Tail(items), acc \o r.v, r.m)
 
 (* a ! r: like `for`, the focus (context item, position, size) instead of a variable *)
@@ -434,7 +447,8 @@ EvalI(e, m) ==
                           r == MapI(e, s.v, 1, <<>>, s.m) IN R(r.v, [r.m EXCEPT !.d = m.d])
     [] e.k = "lits" -> R([j \in 1..Len(e.ns) |-> I(e.ns[j])], m)
     [] e.k = "empty" -> R(<<>>, m)
-    [] e.k = "var" -> R(IF e.n \in DOMAIN m.d THEN m.d[e.n] ELSE Poison("XPST0008"), m)
+    [] e.k = "var" -> R(IF StoreI(e.n) \in DOMAIN m.d THEN m.d[StoreI(e.n)]
+                        ELSE IF Canon(e.n) \in DOMAIN m.d THEN m.d[Canon(e.n)] ELSE Poison("XPST0008"), m)
     [] e.k = "bin" ->
          LET l == EvalI(e.a, m)
              r == EvalI(e.b, l.m) IN
@@ -476,7 +490,7 @@ EvalI(e, m) ==
              r == ForI(e, s.v, <<>>, s.m) IN R(r.v, [r.m EXCEPT !.d = m.d])
     [] e.k = "let" ->      \* copy the dict, evaluate the binding IN THE COPY, bind, evaluate the body
          LET b == EvalI(e.e, m)
-             r == EvalI(e.r, [b.m EXCEPT !.d = Ext(b.m.d, e.v, b.v)]) IN R(r.v, [r.m EXCEPT !.d = m.d])
+             r == EvalI(e.r, [b.m EXCEPT !.d = Ext(b.m.d, StoreI(e.v), b.v)]) IN R(r.v, [r.m EXCEPT !.d = m.d])
     [] e.k = "index" -> LET s == EvalI(e.e, m) IN
                         R(IF e.j \in 1..Len(s.v) THEN <<s.v[e.j]>> ELSE <<>>, s.m)
 =============================================================================
